@@ -333,6 +333,8 @@ func (g *gen03) genValue03(t *Ty, depth int, o *opt03) *Val {
 			n := r.intn(10)
 			if r.chance(10) {
 				n = 46 + r.intn(6)
+			} else if r.chance(1) {
+				n = bigBinaryLens[r.intn(7)] // up to 12289: crosses the 4096 / 8192 / 12288 block boundaries
 			}
 			v.S = r.bytes(n)
 		} else {
@@ -437,6 +439,7 @@ func genC03(r *rng, n int) {
 	nBase := n / 10
 	genC03Base(r.fork(), nBase)
 	nConv := n - nBase
+	nConv -= genC03BigBinary(r.fork(), n)
 	r = r.fork()
 	for made := 0; made < nConv; {
 		g := &gen03{tgen: newTgen(r.fork()), extra: map[*Fld]*fx03{}}
@@ -614,6 +617,88 @@ func run03(g *gen03, desc *thrift.TypeDescriptor, dfs []string, tb []byte, opts 
 		fields = append(fields, fi(0))
 	}
 	out.emit(301, fields...)
+}
+
+// ---- binaries longer than the encoder's / pool's block sizes ------------------------------------------
+// lengths around 4096, 8192, 12288 and one far above 64 KiB, as a struct field, a list element and a map value,
+// with base64 (random bytes) and with NoBase64Binary (printable + escape-relevant bytes). Returns the number of cases.
+var bigBinaryLens = []int{4095, 4096, 4097, 8191, 8192, 8193, 12289, 70001}
+
+func genC03BigBinary(r *rng, n int) int {
+	reps := n / 6000
+	if reps < 1 {
+		if n < 1000 {
+			return 0
+		}
+		reps = 1
+	}
+	g := &gen03{tgen: newTgen(r), extra: map[*Fld]*fx03{}}
+	bin := &Ty{K: thrift.STRING, Binary: true}
+	root := &Ty{K: thrift.STRUCT, Name: "BB", Fields: []*Fld{
+		{ID: 1, Name: "b", T: bin},
+		{ID: 2, Name: "lb", T: &Ty{K: thrift.LIST, Elem: bin}},
+		{ID: 3, Name: "mb", T: &Ty{K: thrift.MAP, Key: &Ty{K: thrift.STRING}, Elem: bin}},
+		{ID: 4, Name: "x", T: &Ty{K: thrift.I32}}}}
+	g.structs = append(g.structs, root)
+	for _, f := range root.Fields {
+		g.extra[f] = &fx03{alias: f.Name}
+	}
+	idl, inc := g.idl03(root, false)
+	desc, err := parse03(idl, inc, thrift.Options{})
+	if err != nil {
+		die("C03: big-binary IDL does not parse: %v", err)
+	}
+	var dfs []string
+	g.descFields(root, &dfs)
+	made := 0
+	for rep := 0; rep < reps; rep++ {
+		for li, ln := range bigBinaryLens {
+			for pos := 0; pos < 3; pos++ {
+				for nob64 := 0; nob64 < 2; nob64++ {
+					n := ln
+					if rep > 0 {
+						n += r.intn(7) - 3
+					}
+					var payload []byte
+					if nob64 == 0 {
+						payload = r.bytes(n)
+					} else {
+						payload = make([]byte, n)
+						for i := range payload {
+							payload[i] = "abcXYZ019 \"\\/\n\t{}[],:"[r.intn(21)]
+						}
+					}
+					small := &Val{T: bin, S: r.bytes(r.intn(5))}
+					big := &Val{T: bin, S: payload}
+					v := &Val{T: root}
+					switch pos {
+					case 0:
+						v.FIDs = []int16{1, 4}
+						v.Fields = []*Val{big, {T: root.Fields[3].T, I: int64(li)}}
+					case 1:
+						lv := &Val{T: root.Fields[1].T, Elems: []*Val{small, big, small}}
+						v.FIDs = []int16{4, 2}
+						v.Fields = []*Val{{T: root.Fields[3].T, I: int64(li)}, lv}
+					default:
+						mv := &Val{T: root.Fields[2].T, Keys: []*Val{{T: &Ty{K: thrift.STRING}, S: []byte("k1")}, {T: &Ty{K: thrift.STRING}, S: []byte("k2")}}, Elems: []*Val{big, small}}
+						v.FIDs = []int16{3}
+						v.Fields = []*Val{mv}
+					}
+					opts := 0
+					if nob64 == 1 {
+						opts = o3NoBase64Binary
+					}
+					mode := 0
+					if r.chance(40) {
+						mode = 1 + r.intn(4)
+					}
+					run03(g, desc, dfs, v.encode(nil), opts, mode)
+					made++
+				}
+			}
+		}
+	}
+	return made
 }
 
 // ---- 302 / 303: the base models against Go's reference libraries ----------------------------------
